@@ -5,6 +5,7 @@ package c01
 import (
 	"crypto/sha256"
 	"fmt"
+	"os"
 	"strings"
 	"time"
 
@@ -126,6 +127,8 @@ func (s *shape) features() string {
 		return "kind=precert-via-preissuer leaf-aki=false preissuer-aki=true"
 	case s.pre() && len(s.refExts()) == 0:
 		return "kind=precert no-extension-left-after-depoisoning"
+	case s.val == "generalized-before-2050":
+		return "kind=precert validity-not-rfc5280(generalized-time-before-2050)"
 	case s.kind == kPrePI:
 		return fmt.Sprintf("kind=precert-via-preissuer leaf-aki=%v preissuer-aki=%v", s.leafAKI, s.h.piAKI)
 	}
@@ -373,7 +376,13 @@ func newWorld() *world {
 		}
 	}
 	// validity encodings at the UTCTime / GeneralizedTime boundary of RFC 5280 s4.1.2.5
-	for _, val := range []string{"utc-2049", "generalized-2050"} {
+	vals := []string{"utc-2049", "generalized-2050"}
+	if os.Getenv("C01_NONCONFORMING_VALIDITY") != "" {
+		// outside the stated quantifier (RFC 5280 s4.1.2.5 forbids it): NotAfter 2025 as GeneralizedTime.
+		// Kept as an opt-in probe; see mutants/c01/README.md.
+		vals = append(vals, "generalized-before-2050")
+	}
+	for _, val := range vals {
 		for ik := 0; ik < 4; ik++ {
 			l := layout{true, 2, 0, 1}
 			add(kCert, w.hier(1, ik, false, false), ik, layout{true, 2, 0, -1}, val)
